@@ -72,6 +72,14 @@ log = logging.getLogger(__name__)
 process_events_semaphore = asyncio.Semaphore(1)
 
 
+def _history_cache_messages(messages):
+    """The part of the messages that identifies a history cache entry (role and content)."""
+    return [
+        (msg["role"], msg["event"] if msg["role"] == "event" else msg.get("content"))
+        for msg in messages
+    ]
+
+
 class LLMRails:
     """Rails based on a given configuration."""
 
@@ -476,8 +484,13 @@ class LLMRails:
             p = len(messages) - 1
             while p > 0:
                 cache_key = get_history_cache_key(messages[0:p])
-                if cache_key in self.events_history_cache:
-                    events = self.events_history_cache[cache_key].copy()
+                cached = self.events_history_cache.get(cache_key)
+                # The key is lossy (no roles, ":" is not escaped): only continue from an
+                # entry that was stored for exactly this sequence of messages.
+                if cached is not None and cached["messages"] == _history_cache_messages(
+                    messages[0:p]
+                ):
+                    events = cached["events"].copy()
                     break
 
                 p -= 1
@@ -773,7 +786,10 @@ class LLMRails:
             if state is None:
                 # Save the new events in the history and update the cache
                 cache_key = get_history_cache_key(messages + [new_message])
-                self.events_history_cache[cache_key] = events
+                self.events_history_cache[cache_key] = {
+                    "messages": _history_cache_messages(messages + [new_message]),
+                    "events": events,
+                }
             else:
                 output_state = {"events": events}
 
